@@ -7,6 +7,7 @@ CONSTANTS
   MaxSteps = 5
   WithWriteDirect = FALSE
   WithAppend = TRUE
+  WithBook = TRUE
   Dev_AppendKeepsTail = FALSE
 INIT Init
 NEXT Next_
